@@ -91,7 +91,22 @@ def check_crate(ctx, config, w, crate, dims, counts):
     # ---- exactness (rule 3/4) -----------------------------------------------
     for e in sorted(expected - set(actual)):
         ctx.fail("impl-missing", "%s/%s" % (label, fmt(e)), "operator impl `%s` follows from the declarations but does not exist" % fmt(e), crate.src)
+    # borrowed-operand variants of the scaling operators (&q * k, k * &q, &q / k, &unit * k, ...) are the same
+    # dimensionally sound operations as their by-value forms; their bodies are C08's business
+    scalar = set()
+    for q in qts:
+        Q, UQ = q.path, q.unit_path
+        scalar |= {("*", amt, UQ, Q), ("*", UQ, amt, Q), ("*", amt, Q, Q), ("*", Q, amt, Q), ("/", Q, amt, Q)}
+    optional = set()
+    for (op, s_, r_, o_) in scalar:
+        for sv in (s_, "&" + s_):
+            for rv in (r_, "&" + r_):
+                if (sv, rv) != (s_, r_):
+                    optional.add((op, sv, rv, o_))
     for e in sorted(set(actual) - expected):
+        if e in optional:
+            ctx.ob("impl-table", "%s/%s" % (label, fmt(e)), len(actual[e]) == 1, "impl `%s` exists %d times" % (fmt(e), len(actual[e])), actual[e][0]["span"], nontrivial=False)
+            continue
         ctx.fail("impl-extra", "%s/%s" % (label, fmt(e)),
                  "operator impl `%s` exists but is not justified by any declaration (a pairing the derivations do not show would type-check)" % fmt(e),
                  actual[e][0]["span"])
